@@ -3,11 +3,14 @@ import json, os
 import vf
 
 C19_INVS = "TypeOK OnlyPermitted NothingConfigured AllowMatchesRoutes PresentUsable"
-C19_DEVS = ["DevDuplicateOnReAdd", "DevRemoveKeepsAllow", "DevWildcardNoDot"]
+C19_DEVS = ["DevDuplicateOnReAdd", "DevRemoveKeepsAllow", "DevWildcardNoDot", "DevDefaultRouteAnyFamily"]
 C20_DEVS = ["DevForwardPrefixMatch", "DevForwardCaseFold"]
+C20_OPEN_DEVS = ["DevPendingBySidOnly", "DevResolveCacheByHost"]
+ALLNETS = ("n1", "n2", "n3", "n4", "n6")
+ALLCFGS = ("c0", "c1", "c2", "c3", "c4", "c5", "c6", "c7")
 # what a deviation looks like on the real code (cause class derived from the REAL state at the offending request)
 DEV_CAUSE = {"DevDuplicateOnReAdd": "stale-allow-entry", "DevRemoveKeepsAllow": "stale-allow-entry",
-             "DevWildcardNoDot": "domain-pattern"}
+             "DevWildcardNoDot": "domain-pattern", "DevDefaultRouteAnyFamily": "default-route-other-family"}
 HFILES = ["common/common_test.go.tmpl", "agent/cmesh_test.go", "agent/exitpolicy_test.go"]
 EXTRA = {"exit": ["exit/exitpolicy_export.go"]}
 
@@ -17,11 +20,12 @@ def q(xs):
 
 
 def cfg(dev=(), emit=True, hist=False, maxops=3, metrics=(1, 2), cfgs=("c0", "c1", "c2", "c3"), maxallow=6,
-        probeonly=False, invs=C19_INVS, props="DialOnlyPermitted", init="Init", nxt="Next", view=True):
-    t = ("CONSTANTS Dev = %s Emit = %s Hist = %s MaxOps = %d Metrics = {%s} CfgNames = %s MaxAllow = %d ProbeOnly = %s\n"
-         "INIT %s\nNEXT %s\n" % (q(dev), "TRUE" if emit else "FALSE", "TRUE" if hist else "FALSE", maxops,
-                                 ",".join(str(m) for m in metrics), q(cfgs), maxallow, "TRUE" if probeonly else "FALSE",
-                                 init, nxt))
+        probeonly=False, invs=C19_INVS, props="DialOnlyPermitted", init="Init", nxt="Next", view=True,
+        nets=("n1", "n2", "n3")):
+    t = ("CONSTANTS Dev = %s Emit = %s Hist = %s MaxOps = %d Metrics = {%s} CfgNames = %s MaxAllow = %d ProbeOnly = %s "
+         "NetSet = %s\nINIT %s\nNEXT %s\n" % (q(dev), "TRUE" if emit else "FALSE", "TRUE" if hist else "FALSE", maxops,
+                                             ",".join(str(m) for m in metrics), q(cfgs), maxallow,
+                                             "TRUE" if probeonly else "FALSE", q(nets), init, nxt))
     if view:
         t += "VIEW view\nACTION_CONSTRAINT EmitEdge\nCONSTRAINT Bound\n"
     if invs:
@@ -88,23 +92,36 @@ def c19_model(ctx):
     quick = ctx.quick()
     tags = ("EDGE", "META")
     hops = 3 if quick else 5
-    jobs = {"ideal": dict(module="ExitPolicy", cfg="MC.cfg", files={"MC.cfg": cfg()}, tags=tags, name="ideal", workers=2),
+    if quick:
+        # graph A: the three loopback networks with metric updates; graph B: the default routes of both address
+        # families (configured alone, next to a narrow network of the other family, and added / removed dynamically)
+        jobs = {"ideal": dict(module="ExitPolicy", cfg="MC.cfg", files={"MC.cfg": cfg()}, tags=tags, name="ideal", workers=2),
+                "ideal2": dict(module="ExitPolicy", cfg="MCb.cfg", tags=tags, name="ideal-defaultroutes", workers=2, files={
+                    "MCb.cfg": cfg(metrics=(1,), cfgs=("c0", "c4", "c5", "c6", "c7"), nets=("n2", "n3", "n4", "n6"))})}
+    else:
+        jobs = {"ideal": dict(module="ExitPolicy", cfg="MC.cfg", files={"MC.cfg": cfg(cfgs=ALLCFGS, nets=ALLNETS)}, tags=tags,
+                              name="ideal", workers=4)}
+    jobs.update({
             # every history of route operations up to MaxOps, with the probe requests at every node
             "hist": dict(module="ExitPolicy", cfg="MChist.cfg", tags=tags, name="hist", workers=2, files={"MChist.cfg": cfg(
-                hist=True, maxops=hops, metrics=(1,), cfgs=("c0", "c2"), probeonly=True)})}
+                hist=True, maxops=hops, metrics=(1,), cfgs=("c0", "c2"), probeonly=True)})})
     if not quick:
         jobs["hist2"] = dict(module="ExitPolicy", cfg="MChist2.cfg", tags=tags, name="hist2", workers=2, files={
             "MChist2.cfg": cfg(hist=True, maxops=4, metrics=(1,), cfgs=("c1", "c3"), probeonly=True)})
+        jobs["hist3"] = dict(module="ExitPolicy", cfg="MChist3.cfg", tags=tags, name="hist3", workers=2, files={
+            "MChist3.cfg": cfg(hist=True, maxops=4, metrics=(1,), cfgs=("c0", "c6"), probeonly=True, nets=("n3", "n4", "n6"))})
     for d in C19_DEVS:
         jobs["dev-" + d] = dict(module="ExitPolicy", cfg="MCdev-%s.cfg" % d, workers=1, expect_violation=True, name="dev-" + d,
-                                files={"MCdev-%s.cfg" % d: cfg(dev=[d], emit=False, invs="TypeOK", props="DialOnlyPermitted")})
+                                files={"MCdev-%s.cfg" % d: cfg(dev=[d], emit=False, invs="TypeOK", props="DialOnlyPermitted",
+                                                              metrics=(1,), cfgs=ALLCFGS, nets=ALLNETS)})
     res = par_tlc(ctx, jobs)
     ideal, histr = res["ideal"], res["hist"]
-    for n in ("ideal", "hist", "hist2"):
+    for n in ("ideal", "ideal2", "hist", "hist2", "hist3"):
         if n in res and res[n].violated:
             raise vf.Infra("ideal ExitPolicy spec (%s) violates %s (specification error)" % (n, res[n].violated))
     meta = meta_of(ideal)
-    extra = [res["hist2"]] if "hist2" in res else []
+    extra = [res[n] for n in ("hist2", "hist3") if n in res]
+    ideal.second = res.get("ideal2")
     caught, cex = {}, []
     for d in C19_DEVS:
         r = res["dev-" + d]
@@ -176,6 +193,8 @@ def cause_of(meta, mm):
     stale = [n for n in real["allow"] if n not in present and ip in meta["covers"].get(n, [])]
     if stale:
         return "stale-allow-entry"
+    if any(n in ("n4", "n6") for n in real["allow"]) and not any(ip in meta["covers"].get(n, []) for n in real["allow"]):
+        return "default-route-other-family"
     d = meta["dests"].get(a.get("dest"), {})
     if d.get("kind") == "dom" and not d.get("lit"):
         return "domain-pattern"
@@ -197,6 +216,16 @@ def c20_model(ctx):
     for d in C20_DEVS:
         jobs[d] = dict(module="ExitPolicy", cfg="Fwd-%s.cfg" % d, files={"Fwd-%s.cfg" % d: fwd_cfg([d])}, workers=1,
                        tags=("FSUM",), expect_violation=True, name="fwd-" + d, dump_trace=False)
+    # part 2b: a forward open as two steps with per-(peer, stream id) identity; request sequences for one live handler
+    jobs["open"] = dict(module="ExitPolicy", cfg="FwdOpen.cfg", workers=2, name="fwd-open", files={"FwdOpen.cfg": cfg(
+        emit=False, cfgs=("c0",), invs="FwdConnOK", props=None, nxt="FwdOpenNext", view=False)})
+    for d in C20_OPEN_DEVS:
+        jobs[d] = dict(module="ExitPolicy", cfg="FwdOpen-%s.cfg" % d, workers=1, name="fwd-open-" + d, expect_violation=True,
+                       dump_trace=False, files={"FwdOpen-%s.cfg" % d: cfg(dev=[d], emit=False, cfgs=("c0",), invs="FwdConnOK",
+                                                                        props=None, nxt="FwdOpenNext", view=False)})
+    jobs["seqs"] = dict(module="ExitPolicy", cfg="FwdSeq.cfg", workers=1, name="fwd-seqs", tags=("FEND", "FSEQ", "FQSUM"),
+                        files={"FwdSeq.cfg": cfg(emit=False, cfgs=("c0",), invs=None, props=None, init="FwdSeqInit",
+                                                 nxt="FwdNext", view=False)})
     res = par_tlc(ctx, jobs)
     r = res["vecs"]
     if r.violated:
@@ -207,11 +236,19 @@ def c20_model(ctx):
     if not vecs or not cfgs or not fsum or fsum[0]["vecs"] != len(vecs):
         raise vf.Infra("forward key model: incomplete VEC output (%d vectors)" % len(vecs))
     caught = {}
-    for d in C20_DEVS:
+    for d in C20_DEVS + C20_OPEN_DEVS:
         if not res[d].violated:
-            raise vf.Infra("deviation %s not detected by FwdOK (vacuous model)" % d)
+            raise vf.Infra("deviation %s not detected (vacuous model)" % d)
         caught[d] = res[d].violated
-    return vecs, cfgs, caught
+    if res["open"].violated:
+        raise vf.Infra("ideal forward-open model violates %s (specification error)" % res["open"].violated)
+    fend = [o for t, o in res["seqs"].prints if t == "FEND"]
+    seqs = [o for t, o in res["seqs"].prints if t == "FSEQ"]
+    qsum = [o for t, o in res["seqs"].prints if t == "FQSUM"]
+    if not fend or not qsum or qsum[0]["seqs"] != len(seqs):
+        raise vf.Infra("forward-open model: incomplete FSEQ output (%d sequences)" % len(seqs))
+    openm = {"endpoints": fend[0], "seqs": seqs, "states": res["open"].distinct, "transitions": res["open"].generated}
+    return vecs, cfgs, caught, openm
 
 
 def fk_near(cfgkeys, v):
